@@ -167,6 +167,9 @@ func (g *gen) op(depth int, allowPub bool) Op {
 			if o.UseCtx && g.pf.Cancels && r.IntN(5) == 0 {
 				o.PreCancelled = true
 			}
+			if o.UseCtx && g.pf.Cancels && r.IntN(3) == 0 {
+				o.Deadline = true
+			}
 			if o.UseCtx && depth > 0 {
 				o.Inherit = r.IntN(2) == 0
 			}
@@ -197,7 +200,7 @@ func (e *Engine) logOp(op *Op) {
 		k += fmt.Sprintf(":c%v,o%v,a%v,s%v,f%d,p%d,x%d", s.Ctx, s.Once, s.Async, s.Seq, s.Filter, s.PanicKind, s.CancelAt)
 	}
 	if op.K == Pub {
-		k += fmt.Sprintf(":u%v,pc%v", op.UseCtx, op.PreCancelled)
+		k += fmt.Sprintf(":u%v,pc%v,d%v", op.UseCtx, op.PreCancelled, op.Deadline)
 	}
 	if e.execLog[k] < 3 {
 		e.execLog[k]++
